@@ -9,7 +9,7 @@
     programs (later requests) is validated against the real engine, not proved - and known to
     deviate (recorded finding). *)
 From QV Require Import Common.Prelude Conc.CycleSearch Generated.CycleSearchShape Engine.Model Engine.CycleLemmas.
-From QV Require Import Engine.CoreSpec Engine.MdlSpec Engine.MdlCyc.
+From QV Require Import Engine.CoreSpec Engine.MdlSpec Engine.MdlCyc Engine.MdlCycRefuted.
 Open Scope N_scope.
 
 (** the search as the current source has it *)
@@ -85,6 +85,13 @@ Theorem C06_fresh_cyclic_program_any_task_order :
     nth_error (run_history_op tord bord pord p init_state (OSession sets false :: OQuery root :: rest)) 1 = Some r ->
     exists v, cyc_spec p (inputs_after [OSession sets false]) root v /\ r_out r = RValue v /\ NoDup (r_execs r).
 Proof. exact MdlCyc.model_cyclic_fresh_op. Qed.
+(** The incremental version of (3) - every answer of every history satisfies [cyc_spec] - is FALSE of
+    the model (which agrees with the real engine on these histories: they are witness/c06_*.txt,
+    replayed on the engine on every run): recorded finding c06_incremental_scc_membership. *)
+Theorem C06_incremental_cycle_membership_refuted : ~ model_cyclic_incremental_statement.
+Proof. exact MdlCycRefuted.model_cyclic_incremental_refuted. Qed.
+Check w1_cycle_formed_under_repair.      (* model: N0 = 810, N2 = 1810; from scratch with defaults: -1, 999 *)
+Check w2_cycle_member_reexecuted_alone.  (* model: N3 = 3; from scratch with defaults: -1 *)
 Check cex_prog_wf.   (* a conditional cycle A = B + 1, B = if I0 then A else 5, a self loop, readers outside *)
 Check cex_run.
 Check cex_spec.      (* the spec values, obtained by applying the theorem: its premises are satisfiable *)
@@ -93,6 +100,7 @@ Print Assumptions C06_search_terminates.
 Print Assumptions C06_cyc_spec_deterministic.
 Print Assumptions C06_fresh_cyclic_program_takes_defaults.
 Print Assumptions C06_fresh_cyclic_program_any_task_order.
+Print Assumptions C06_incremental_cycle_membership_refuted.
 Print Assumptions C06_search_plain_refuted.
 Print Assumptions C06_search_plain_terminates_on_dags.
 Print Assumptions C06_request_on_stack_is_cyclic.
